@@ -466,12 +466,14 @@ def cases(tier, seed):
                     if q and inhom and (rot % 2 == 1) and op != "laplace":
                         continue
                     cfg = {"grid": gname, "op": op, "rot": rot, "inhom": inhom}
-                    if kind == "cart" and op in sreg.get("cart", {}):
-                        cfg["scipy"] = True
-                        if op in ("laplace", "vector_laplace"):
-                            cfg["isotropic"] = True
                     if op == "laplace":
                         cfg["matrix"] = True
+                    if kind == "cart" and op in sreg.get("cart", {}):
+                        if op in ("laplace", "vector_laplace"):
+                            # scipy Laplacians need a uniform discretisation: extra isotropic variant
+                            out.append(_case(f"{gname}:{op}:rot{rot}:{'inhom' if inhom else 'hom'}:isotropic+scipy", **dict(cfg, scipy=True, isotropic=True)))
+                        else:
+                            cfg["scipy"] = True
                     out.append(_case(f"{gname}:{op}:rot{rot}:{'inhom' if inhom else 'hom'}", **cfg))
     # annular / special grids for the matrix route (first/last row code paths)
     for gname in ("polar:hole", "sph:nohole", "cyl:hole", "cyl:periodic_z", "cart1", "cart3"):
